@@ -64,10 +64,36 @@ def check(rep, tier, seed):
         if p.startswith(base + "::") and "RequestBodyLimitLayer" in open(ctx.idx.files[p], errors="replace").read():
             if svc is None or len(p) > len(svc):
                 svc = p if svc is None else svc
-    cands = [p for p in ctx.idx.files if p.startswith(base + "::") and "RequestBodyLimitLayer::new" in open(ctx.idx.files[p], errors="replace").read()]
+    texts = {p: open(ctx.idx.files[p], errors="replace").read() for p in ctx.idx.files if p.startswith(base + "::")}
+    # the per-request closure: the one that hands the request to a tower service
+    cands = [p for p, t in texts.items() if re.search(r"as (tower::)?Service<.*>>::call", t) and "service_fn" in t]
     if len(cands) != 1:
-        raise Inconclusive("expected one closure constructing RequestBodyLimitLayer, found %d" % len(cands))
+        cands = [p for p, t in texts.items() if "RequestBodyLimitLayer::new" in t]
+    if len(cands) != 1:
+        raise Inconclusive("expected one closure handing the request to the limited tower service, found %d" % len(cands))
     svc = cands[0]
+    # limit layers built outside the per-request closure and captured by it: field index of the closure -> limit
+    captured = {}
+    makers = [p for p, t in texts.items() if "RequestBodyLimitLayer::new" in t and p != svc]
+    for parent in makers:
+        try:
+            e0 = ctx.engine(loop_bound=1, max_paths=200)
+            st = e0.find_blocks(parent, r"RequestBodyLimitLayer::new$")
+            for r in e0.explore(parent, start_bb=st[0], stop_calls=r"serve_connection$|with_upgrades$"):
+                for e in r.events:
+                    if e.kind == "call" and e.callee.endswith("service_fn") and e.rargs:
+                        cl = origin(e.rargs[0])
+                        if isinstance(cl, Agg) and cl.kind == "closure":
+                            for k, f in enumerate(cl.fields):
+                                fo = origin(f)
+                                ly = [x for x in r.events if x.ret is fo and x.callee.endswith("ServiceBuilder::layer")]
+                                if ly:
+                                    nw = [x for x in r.events if x.ret is origin(ly[0].rargs[1]) and x.callee.endswith("RequestBodyLimitLayer::new")]
+                                    if nw and isinstance(nw[0].rargs[0], Scalar) and z3.is_bv_value(z3.simplify(nw[0].rargs[0].e)):
+                                        captured[k] = z3.simplify(nw[0].rargs[0].e).as_long()
+            rep.functions_encoded.append(parent + " [slice: construction of the limit layers to the service closure]")
+        except Inconclusive:
+            pass
     import callgraph
     cg = callgraph.CallGraph(ctx.idx); cg.set_src(ctx.src)
     eng = ctx.engine()
@@ -106,6 +132,25 @@ def check(rep, tier, seed):
                 nw = [e for e in news if e.ret is l]
                 if nw:
                     used = limit_of(nw[0])
+        if used is None and sf and captured:
+            # the builder is (a clone of) a captured field of this closure
+            b = origin(sf[0].rargs[0])
+            cur = b
+            for _ in range(4):
+                if isinstance(cur, Sym) and isinstance(cur.tag, tuple) and cur.tag[0] == "ret" and re.search(r"(clone|Clone>::clone)$", cur.tag[1]):
+                    ce = [x for x in r.events if x.ret is cur and x.rargs]
+                    cur = origin(ce[0].rargs[0]) if ce else cur
+                    continue
+                break
+            if isinstance(cur, Sym) and isinstance(cur.tag, tuple) and cur.tag[0] == "part":
+                ks = []
+                c2 = cur
+                while isinstance(c2, Sym) and isinstance(c2.tag, tuple) and c2.tag[0] == "part":
+                    ks.append(c2.tag[2]); c2 = c2.tag[1]
+                if c2 is origin(r.args[0]) or (isinstance(c2, Sym) and c2.tag[0] == "arg" and c2.tag[1] == 1):
+                    fk = [k for k in ks if isinstance(k, tuple) and k[0] == "f"]
+                    if fk and fk[-1][1] in captured:
+                        used = captured[fk[-1][1]]
         if used is None:
             rep.add(Query("service closure path %d: the limit layer wrapping the called service is identified" % i, "inconclusive", "could not follow call <- service_fn <- layer <- RequestBodyLimitLayer::new(const)", 0, "mirsym", key="C15.svc-structure"))
             continue
